@@ -29,7 +29,7 @@ STRATEGIES = ('sorted', 'max', 'naive', 'timesorted', 'bucketmax', 'random')
 MENU = [('store', 'm', 1), ('store', 'm', 2), ('store', 'n', 1), ('query', 'm'), ('bulk', ('m', 'n'))]
 INITS = [[], [('m', 1, -1.0)], [('m', 1, -1.0), ('n', 1, -2.0), ('n', 2, -3.0)]]
 KEY_PROGRAMS = [
-  ([('m', 1, -1.0)], [('store', 'm', 1, 1.0), ('store', 'm', 1, 2.0), ('store', 'n', 1, 3.0)]),
+  ([('m', 1, 0.0)], [('store', 'm', 1, 1.0), ('store', 'm', 1, 0.0), ('store', 'n', 1, 3.0)]),
   ([('m', 1, -1.0)], [('store', 'm', 2, 1.0), ('query', 'm'), ('store', 'm', 1, 3.0)]),
   ([('m', 1, -1.0)], [('store', 'n', 1, 1.0), ('store', 'm', 2, 2.0), ('bulk', ('m', 'n'))]),
   ([], [('store', 'm', 1, 1.0), ('store', 'm', 2, 2.0), ('store', 'm', 1, 3.0)]),
